@@ -203,6 +203,12 @@ func (fr *Frame) frameObligations(ct *Contract, entry *State, r retInfo, ri int,
 			x := q(vc.freshName("x"))
 			conds := []string{"(< (birth " + x + ") " + entry.now + ")"}
 			for _, l := range allowedLocs {
+				if l.Typ == nil {
+					if l.Fam == f {
+						conds = append(conds, not(eq(x, l.Idx[0])))
+					}
+					continue
+				}
 				for _, lf := range vc.shape(l.Typ) {
 					if l.Fam+lf.Suffix == f && len(l.Idx) >= 1 {
 						conds = append(conds, not(eq(x, l.Idx[0])))
